@@ -1,7 +1,15 @@
+import HcipyVerif.Model.FftWeights
+import HcipyVerif.Model.Nft
 import HcipyVerif.Model.Proto
 import HcipyVerif.Model.FftGrid
 import HcipyVerif.Model.FftIndex
 import HcipyVerif.Model.FftSelect
+import HcipyVerif.Model.FftIndexN
+import HcipyVerif.Model.FftState
+import HcipyVerif.Model.Mft
+import HcipyVerif.Model.Czt
+import HcipyVerif.Model.ZoomN
+import HcipyVerif.Model.Axes
 
 /-!
 Line-protocol front end of the C01 model.
@@ -15,15 +23,56 @@ Line-protocol front end of the C01 model.
   `j`, every output sample as a monomial `c:t:r` = `c·exp(i(2π·t + r))`.
 * `sum fwd|bwd …` — the same from the defining sum (right-hand side of the theorems).
 * `select regular|separated|unstructured cart ndim none|fftgrid|regular|separated|unstructured fftCheaper`
-  — `make_fourier_transform` (`makeFT detectLit`): input grid kind, whether it is Cartesian, the
+  — `make_fourier_transform` (`makeFT detectFix`, the detection of the repaired code): input grid kind, whether it is Cartesian, the
   number of dimensions (the output grid, when given, is Cartesian of the same dimension; `fftgrid` =
   regular and the numerical part of `get_fft_parameters` succeeds), the planner's comparison
   (`1` = not `fft > mft`).  Answer `ok fft|mft|naive` or `err value`.
+* `selectx kind cart ndim none|okind ocart ondim numFft fftCheaper` — `makeFT detectFix` with a full
+  descriptor of the requested grid (kind, Cartesian or not, number of axes, outcome of the numerical
+  part of `get_fft_parameters`).  Answer `ok method params|grid kind cart ndim` (the descriptor of the
+  object's `output_grid`, `ctorGrid`) or `err value`.
+* `impn lit|iter|sum fwd|bwd std|emu [N…] [M…] [Mo…] [δ…] [z…] [dT…] [s…] [w…] [j…]` (lists in *shape*
+  order `…,y,x`) — the **literal** 2-D / 3-D array programs `fastForward2/3`, `fastBackward2/3`
+  (`lit`, 1–3 axes) or the iterated `fastForwardN`/`fastBackwardN` (`iter`, any number of axes) on the
+  unit impulse at the multi-index `j`; all output samples, row-major.  `sum` = the n-D defining sums
+  `sumForwardN` / `sumBackwardN` (output weights `dT` per axis) on the same impulse.
+* `reproduce N δ Mo dT zeroT s z` — one axis of `get_fft_parameters` followed by the
+  FastFourierTransform built from the reconstructed parameters: `getFftParameters`, then
+  `plan (p.toAxisIn a z)`; answers `ok b Mo dT zeroT s` where `b` decides
+  `AxisReproduced a z o p ∧ FftValuePre (p.toAxisIn a z)` (the conclusion of `fft_grid_roundtrip'`,
+  the per-axis content of `AxesReproduced` in `selection_sound'`) and the rest is the output axis
+  that plan reports (`zeroT` = its zero in turns + the reconstructed shift in turns); `err value`
+  when the requested axis is not an FFT axis of the input axis.
+* `impnw std|emu [N…] [M…] [Mo…] [δ…] [z…] [dT…] [s…] [w…] [rel…] [j…]` — `fastForwardNW`
+  (`Model/FftWeights.lean`): forward on a grid with per-point weights; `[w…]` as for `impn` (product
+  = the cell area kept in `shift_input`), `[rel…]` the `relative_weights` array, row-major.
+* `nft fwd|bwd mat|fly [x…];[y…];… [u…];[v…];… [w…] j` — `Model/Nft.lean`: NaiveFourierTransform on
+  unstructured points (one coordinate list per dimension for the input and for the output points),
+  precomputed-matrix path or on-the-fly path, per-point weights of the source grid (`bwd`: output
+  weights already divided by `(2π)^ndim`), unit impulse at `j`; all samples.
+* `load shifts N M [buf…] [f…]` — `loadArray` (`Model/FftState.lean`): the persistent internal array
+  after the first statements of `forward` from previous contents `buf` (then `ifftshift` when
+  `shifts = 1`, as the code rebinds `internal_array`); exact rationals.
+* `corestate shifts N M Mo [buf…] j` — `coreState` with the forward kernel on the unit impulse
+  at `j`, starting from the previous contents `buf`.
+* `mft fwd|bwd|sumfwd|sumbwd [x…] [y…] [u…] [v…] [w…] j` — `mftForward`/`mftBackward`
+  (`Model/Mft.lean`, the two gemm calls) and the defining sums on the unit impulse at flat index `j`;
+  `w` with one entry is the scalar-weights branch.  `mft1 fwd|bwd [x…] [u…] [w…] j` — one axis.
+* `czt n m nfft ω α j` — `cztBluestein` (`Model/Czt.lean`) on the unit impulse at `j`
+  (`w = exp(iω)`, `a = exp(iα)`); `cztsum …` the defining sum; `cztparts n m ω α` — the arrays
+  `_Awk2 | _wk2 | hstack(1/wk2[n-1:0:-1], 1/wk2[:m])` of the code.
+* `zoomn fwd|bwd [n…] [m…] [nfft…] [nfftInv…] [x0…] [δ…] [u0…] [Δ…] [w…] [j…]` (shape order) —
+  `zoomForwardN` / `zoomBackwardN` (`Model/ZoomN.lean`: weights, then the CZT axis loop) on the unit
+  impulse; `zoomsum …` the n-D defining sums.
+* `zoomchirp fwd|bwd x0 δ u0 Δ` — the chirp parameters `w a` of one axis (`zoomChirp`/`zoomChirpInv`,
+  what `zoomAxis`/`zoomAxisInv` hand to the Bluestein pipeline), as monomials.
+* `zoomaxes r ndim` — `zoomLoop` (`Model/Axes.lean`): the axis the CZT acts on at each iteration and
+  the final layout, labels `t<i>` (tensor axis) / `g<d>` (grid axis with dims-index `d`).
 * `fftparams N δ Mo dT zeroT s` — `get_fft_parameters` on one axis (output spacing `2π·dT`, output
   zero `2π·zeroT + s`).  Answer `ok q fov shiftT s` (the shift is `2π·shiftT + s`) or `err value`.
 -/
 namespace HcipyVerif.Driver.C01
-open HcipyVerif.Proto HcipyVerif.Fft
+open HcipyVerif.Proto HcipyVerif.Fft HcipyVerif.Axes
 
 structure St where
   dummy : Unit := ()
@@ -80,7 +129,291 @@ def showMethod : Method → String
   | .mft => "mft"
   | .naive => "naive"
 
+def showTerm (x : Term) : String := s!"{showRat x.c}:{showRat x.t}:{showRat x.r}"
+
+/-- every term of a formal phase sum, `+`-separated -/
+def showPSumFull (p : PSum) : String :=
+  match p.terms with
+  | [] => "0"
+  | ts => "+".intercalate (ts.map showTerm)
+
+def showPSums (l : List PSum) : String := ";".intercalate (l.map showPSumFull)
+
+/-- all multi-indices below `dims`, row-major (head slowest) -/
+def allIdx : List Nat → List (List Nat)
+  | [] => [[]]
+  | n :: ns => (List.range n).flatMap fun i => (allIdx ns).map (i :: ·)
+
+/-- row-major flat index -/
+def flatIdx : List Nat → List Nat → Nat
+  | _ :: ns, i :: is => i * ns.foldl (· * ·) 1 + flatIdx ns is
+  | _, _ => 0
+
+def prodList (l : List Nat) : Nat := l.foldl (· * ·) 1
+
+def impulseN (js : List Nat) (idx : List Nat) : PSum := if idx = js then PSum.ofRat 1 else 0
+
+/-- weights from a list: one entry = the same number everywhere, else indexed row-major -/
+def weightFn (dims : List Nat) (w : List Rat) (idx : List Nat) : PSum :=
+  match w with
+  | [w0] => PSum.ofRat w0
+  | _ => PSum.ofRat (w.getD (flatIdx dims idx) 0)
+
+def zipCfg (emu : Bool) : List Nat → List Nat → List Nat → List Rat → List Rat → List Rat → List Rat →
+    List Rat → Option (List RCfg)
+  | [], [], [], [], [], [], [], [] => some []
+  | n :: ns, m :: ms, o :: os, d :: ds, z :: zs, t :: ts, s :: ss, w :: ws =>
+    (zipCfg emu ns ms os ds zs ts ss ws).map fun rest =>
+      { N := n, M := m, Mo := o, δ := d, z := z, dT := t, s := s, w := PSum.ofRat w, emu := emu } :: rest
+  | _, _, _, _, _, _, _, _ => none
+
+def zipZAx : List Nat → List Nat → List Nat → List Nat → List Rat → List Rat → List Rat → List Rat →
+    Option (List (ZAx Rat))
+  | [], [], [], [], [], [], [], [] => some []
+  | n :: ns, m :: ms, a :: as, b :: bs, x :: xs, d :: ds, u :: us, e :: es =>
+    (zipZAx ns ms as bs xs ds us es).map fun rest =>
+      { n := n, m := m, nfft := a, nfftInv := b, x0 := x, δ := d, u0 := u, Δ := e } :: rest
+  | _, _, _, _, _, _, _, _ => none
+
+def showAx : Ax → String
+  | .t i => s!"t{i}"
+  | .g d => s!"g{d}"
+
+def showAxes (l : List Ax) : String := "[" ++ ",".intercalate (l.map showAx) ++ "]"
+
+def showKind : GridKind → String
+  | .regular => "regular"
+  | .separated => "separated"
+  | .unstructured => "unstructured"
+
+def showVia : Via → String
+  | .params => "params"
+  | .grid => "grid"
+
+/-- the literal array programs for 1–3 axes -/
+def literalN (fwd : Bool) (gs : List RCfg) (js : List Nat) : Option (List PSum) :=
+  let T := PSum.turns; let E := PSum.rad
+  match gs, js with
+  | [gx], [jx] =>
+    if fwd then some ((List.range gx.Mo).map fun k => fastForward T E gx (PSum.impulse jx) k)
+    else some ((List.range gx.N).map fun k => fastBackward T E gx (PSum.impulse jx) k)
+  | [gy, gx], [jy, jx] =>
+    let f : Nat → Nat → PSum := fun iy ix => if iy = jy ∧ ix = jx then PSum.ofRat 1 else 0
+    if fwd then some ((allIdx [gy.Mo, gx.Mo]).map fun
+      | [ky, kx] => fastForward2 T E gy gx f ky kx
+      | _ => 0)
+    else some ((allIdx [gy.N, gx.N]).map fun
+      | [ky, kx] => fastBackward2 T E gy gx f ky kx
+      | _ => 0)
+  | [gz, gy, gx], [jz, jy, jx] =>
+    let f : Nat → Nat → Nat → PSum := fun iz iy ix =>
+      if iz = jz ∧ iy = jy ∧ ix = jx then PSum.ofRat 1 else 0
+    if fwd then some ((allIdx [gz.Mo, gy.Mo, gx.Mo]).map fun
+      | [kz, ky, kx] => fastForward3 T E gz gy gx f kz ky kx
+      | _ => 0)
+    else some ((allIdx [gz.N, gy.N, gx.N]).map fun
+      | [kz, ky, kx] => fastBackward3 T E gz gy gx f kz ky kx
+      | _ => 0)
+  | _, _ => none
+
+instance (a : InAxis) (z : Rat) (o : OutAxis) (p : FftParams) : Decidable (AxisReproduced a z o p) := by
+  unfold AxisReproduced; infer_instance
+
+instance (a : AxisIn) : Decidable (FftValuePre a) := by
+  unfold FftValuePre; infer_instance
+
+def cztOp (sum : Bool) : List String → String
+  | [n, m, nfft, om, al, j] =>
+    match parseNat? n, parseNat? m, parseNat? nfft, parseRat? om, parseRat? al, parseNat? j with
+    | some n, some m, some nfft, some om, some al, some j =>
+      if n = 0 || nfft < n + m - 1 || j ≥ n then "err value" else
+      let outs := (List.range m).map fun k =>
+        if !sum then cztBluestein n m nfft PSum.rad om al (PSum.impulse j) k
+        else cztSum n PSum.rad om al (PSum.impulse j) k
+      "ok " ++ showPSums outs
+    | _, _, _, _, _, _ => "bad-op"
+  | _ => "bad-op"
+
+def zoomOp (sum : Bool) : List String → String
+  | [dir, ns, ms, nf, nfi, x0s, ds, u0s, Ds, ws, js] =>
+    match parseNatList? ns, parseNatList? ms, parseNatList? nf, parseNatList? nfi, parseRatList? x0s,
+      parseRatList? ds, parseRatList? u0s, parseRatList? Ds, parseRatList? ws, parseNatList? js with
+    | some ns, some ms, some nf, some nfi, some x0s, some ds, some u0s, some Ds, some w, some js =>
+      if dir != "fwd" && dir != "bwd" then "bad-op" else
+      match zipZAx ns ms nf nfi x0s ds u0s Ds with
+      | none => "bad-op"
+      | some axs =>
+        let fwd := dir == "fwd"
+        let src := if fwd then ns else ms
+        let dst := if fwd then ms else ns
+        if js.length != axs.length then "bad-op" else
+        if axs.any (fun a => a.n = 0 || a.m = 0 || a.nfft < a.n + a.m - 1 || a.nfftInv < a.n + a.m - 1)
+            || (w.length != 1 && w.length != prodList src) then "err value" else
+        let E := PSum.rad
+        let wf := weightFn src w
+        let outs := (allIdx dst).map fun ks =>
+          match sum, fwd with
+          | false, true => zoomForwardN E axs wf (impulseN js) ks
+          | false, false => zoomBackwardN E axs wf (impulseN js) ks
+          | true, true => zoomSumForwardN E axs wf (impulseN js) ks
+          | true, false => zoomSumBackwardN E axs wf (impulseN js) ks
+        "ok " ++ showPSums outs
+    | _, _, _, _, _, _, _, _, _, _ => "bad-op"
+  | _ => "bad-op"
+
 def step (st : St) : List String → St × String
+  | ["impn", mode, dir, cfg, Ns, Ms, Mos, ds, zs, dTs, ss, ws, js] =>
+    match parseNatList? Ns, parseNatList? Ms, parseNatList? Mos, parseRatList? ds, parseRatList? zs,
+      parseRatList? dTs, parseRatList? ss, parseRatList? ws, parseNatList? js with
+    | some Ns, some Ms, some Mos, some ds, some zs, some dTs, some ss, some ws, some js =>
+      if (dir != "fwd" && dir != "bwd") || (cfg != "std" && cfg != "emu") ||
+          (mode != "lit" && mode != "iter" && mode != "sum") then (st, "bad-op") else
+      match zipCfg (cfg == "emu") Ns Ms Mos ds zs dTs ss ws with
+      | none => (st, "bad-op")
+      | some gs =>
+        if js.length != gs.length then (st, "bad-op") else
+        if gs.any (fun g => g.M = 0 || g.N > g.M || g.Mo > g.M) then (st, "err value") else
+        let fwd := dir == "fwd"
+        if mode == "lit" then
+          match literalN fwd gs js with
+          | none => (st, "err value")
+          | some outs => (st, "ok " ++ showPSums outs)
+        else if mode == "sum" then
+          -- the n-D defining sums the theorems `fast_*_nd_eq_sum` have on their right-hand side
+          let T := PSum.turns; let E := PSum.rad
+          let outs :=
+            if fwd then (allIdx (gs.map (·.Mo))).map fun ks => sumForwardN T E gs (impulseN js) ks
+            else (allIdx (gs.map (·.N))).map fun ks =>
+              sumBackwardN T E (fun g => PSum.ofRat g.dT) gs (impulseN js) ks
+          (st, "ok " ++ showPSums outs)
+        else
+          let T := PSum.turns; let E := PSum.rad
+          let outs :=
+            if fwd then (allIdx (gs.map (·.Mo))).map fun ks => fastForwardN T E gs (impulseN js) ks
+            else (allIdx (gs.map (·.N))).map fun ks => fastBackwardN T E gs (impulseN js) ks
+          (st, "ok " ++ showPSums outs)
+    | _, _, _, _, _, _, _, _, _ => (st, "bad-op")
+  | ["impnw", cfg, Ns, Ms, Mos, ds, zs, dTs, ss, ws, rels, js] =>
+    match parseNatList? Ns, parseNatList? Ms, parseNatList? Mos, parseRatList? ds, parseRatList? zs,
+      parseRatList? dTs, parseRatList? ss, parseRatList? ws, parseRatList? rels, parseNatList? js with
+    | some Ns, some Ms, some Mos, some ds, some zs, some dTs, some ss, some ws, some rels, some js =>
+      if cfg != "std" && cfg != "emu" then (st, "bad-op") else
+      match zipCfg (cfg == "emu") Ns Ms Mos ds zs dTs ss ws with
+      | none => (st, "bad-op")
+      | some gs =>
+        if js.length != gs.length then (st, "bad-op") else
+        if gs.any (fun g => g.M = 0 || g.N > g.M || g.Mo > g.M) || rels.length != prodList Ns then
+          (st, "err value") else
+        let rel : List Nat → PSum := fun idx => PSum.ofRat (rels.getD (flatIdx Ns idx) 0)
+        let outs := (allIdx (gs.map (·.Mo))).map fun ks =>
+          fastForwardNW PSum.turns PSum.rad gs rel (impulseN js) ks
+        (st, "ok " ++ showPSums outs)
+    | _, _, _, _, _, _, _, _, _, _ => (st, "bad-op")
+  | ["nft", dir, path, xss, uss, ws, j] =>
+    match parseRatLists? xss, parseRatLists? uss, parseRatList? ws, parseNat? j with
+    | some xs, some us, some w, some j =>
+      if (dir != "fwd" && dir != "bwd") || (path != "mat" && path != "fly") then (st, "bad-op") else
+      let n := (xs.headD []).length
+      let m := (us.headD []).length
+      let fwd := dir == "fwd"
+      if xs.isEmpty || xs.length != us.length || xs.any (·.length != n) || us.any (·.length != m) ||
+          w.length != (if fwd then n else m) || j ≥ (if fwd then n else m) then (st, "err value") else
+      (st, "ok " ++ showPSums (nftImpulse fwd (path == "mat") xs us w j))
+    | _, _, _, _ => (st, "bad-op")
+  | ["load", sh, N, M, bufs, fs] =>
+    match parseBool? sh, parseNat? N, parseNat? M, parseRatList? bufs, parseRatList? fs with
+    | some sh, some N, some M, some buf, some f =>
+      if M = 0 || N > M || buf.length != M || f.length != N then (st, "err value") else
+      let a : Nat → Rat := loadArray N M (fun p => buf.getD p 0) (fun j => f.getD j 0)
+      let a' : Nat → Rat := if sh then ifftshift M a else a
+      (st, "ok " ++ showRatList ((List.range M).map a'))
+    | _, _, _, _, _ => (st, "bad-op")
+  | ["corestate", sh, N, M, Mo, bufs, j] =>
+    match parseBool? sh, parseNat? N, parseNat? M, parseNat? Mo, parseRatList? bufs, parseNat? j with
+    | some sh, some N, some M, some Mo, some buf, some j =>
+      if M = 0 || N > M || Mo > M || buf.length != M || j ≥ N then (st, "err value") else
+      let ker : Int → PSum := fun n => PSum.turns (-((n : Rat) / (M : Rat)))
+      let outs := (List.range Mo).map fun k =>
+        coreState sh N M Mo ker (fun p => PSum.ofRat (buf.getD p 0)) (PSum.impulse j) k
+      (st, "ok " ++ showPSums outs)
+    | _, _, _, _, _, _ => (st, "bad-op")
+  | ["mft", dir, xs, ys, us, vs, ws, j] =>
+    match parseRatList? xs, parseRatList? ys, parseRatList? us, parseRatList? vs, parseRatList? ws,
+      parseNat? j with
+    | some x, some y, some u, some v, some w, some j =>
+      let fwd := dir == "fwd" || dir == "sumfwd"
+      let nsrc := if fwd then y.length * x.length else v.length * u.length
+      if (w.length != 1 && w.length != nsrc) || j ≥ nsrc then (st, "err value") else
+      match dir with
+      | "fwd" => (st, "ok " ++ showPSums (mftForwardImpulse x y u v w j))
+      | "bwd" => (st, "ok " ++ showPSums (mftBackwardImpulse x y u v w j))
+      | "sumfwd" => (st, "ok " ++ showPSums (mftSumForwardImpulse x y u v w j))
+      | "sumbwd" => (st, "ok " ++ showPSums (mftSumBackwardImpulse x y u v w j))
+      | _ => (st, "bad-op")
+    | _, _, _, _, _, _ => (st, "bad-op")
+  | ["mft1", dir, xs, us, ws, j] =>
+    match parseRatList? xs, parseRatList? us, parseRatList? ws, parseNat? j with
+    | some x, some u, some w, some j =>
+      let nsrc := if dir == "fwd" then x.length else u.length
+      if (w.length != 1 && w.length != nsrc) || j ≥ nsrc then (st, "err value") else
+      match dir with
+      | "fwd" => (st, "ok " ++ showPSums (mftForward1Impulse x u w j))
+      | "bwd" => (st, "ok " ++ showPSums (mftBackward1Impulse x u w j))
+      | _ => (st, "bad-op")
+    | _, _, _, _ => (st, "bad-op")
+  | "czt" :: args => (st, cztOp false args)
+  | "cztsum" :: args => (st, cztOp true args)
+  | ["cztparts", n, m, om, al] =>
+    match parseNat? n, parseNat? m, parseRat? om, parseRat? al with
+    | some n, some m, some om, some al =>
+      if n = 0 then (st, "err value") else
+      let awk2 := (List.range n).map fun i => cztAwk2 PSum.rad om al i
+      let wk2 := (List.range m).map fun i => cztWk2 PSum.rad om i
+      let ker := (List.range (n + m - 1)).map fun r =>
+        cztKernel n m (fun i => (cztWk2 PSum.rad om i)⁻¹) r
+      (st, "ok " ++ showPSums awk2 ++ " | " ++ showPSums wk2 ++ " | " ++ showPSums ker)
+    | _, _, _, _ => (st, "bad-op")
+  | "zoomn" :: args => (st, zoomOp false args)
+  | "zoomsum" :: args => (st, zoomOp true args)
+  | ["zoomchirp", dir, x0, d, u0, D] =>
+    match parseRat? x0, parseRat? d, parseRat? u0, parseRat? D with
+    | some x0, some d, some u0, some D =>
+      if dir == "fwd" then
+        let p := zoomChirp d u0 D
+        (st, s!"ok {showPSumFull (PSum.rad p.1)} {showPSumFull (PSum.rad p.2)}")
+      else if dir == "bwd" then
+        let p := zoomChirpInv x0 d D
+        let E' : Rat → PSum := fun r => PSum.rad (-r)
+        (st, s!"ok {showPSumFull (E' p.1)} {showPSumFull (E' p.2)}")
+      else (st, "bad-op")
+    | _, _, _, _ => (st, "bad-op")
+  | ["zoomaxes", r, ndim] =>
+    match parseNat? r, parseNat? ndim with
+    | some r, some ndim =>
+      let (hits, fin) := zoomLoop r ndim
+      (st, s!"ok {showAxes hits} {showAxes fin} {showAxes (initLayout r ndim)}")
+    | _, _ => (st, "bad-op")
+  | ["selectx", kind, cart, ndim, "none", cheaper] =>
+    match parseKind? kind, parseBool? cart, parseNat? ndim, parseBool? cheaper with
+    | some kind, some cart, some ndim, some cheaper =>
+      match makeFT detectFix ⟨kind, cart, ndim⟩ none cheaper with
+      | .ok c =>
+        let g := ctorGrid ⟨kind, cart, ndim⟩ none c
+        (st, s!"ok {showMethod c.method} {showVia c.via} {showKind g.kind} {showBool g.cartesian} {g.ndim}")
+      | .error e => (st, "err " ++ e)
+    | _, _, _, _ => (st, "bad-op")
+  | ["selectx", kind, cart, ndim, okind, ocart, ondim, numFft, cheaper] =>
+    match parseKind? kind, parseBool? cart, parseNat? ndim, parseKind? okind, parseBool? ocart,
+      parseNat? ondim, parseBool? numFft, parseBool? cheaper with
+    | some kind, some cart, some ndim, some okind, some ocart, some ondim, some numFft, some cheaper =>
+      let i : GridDesc := ⟨kind, cart, ndim⟩
+      let o : Option OutReq := some ⟨⟨okind, ocart, ondim⟩, numFft⟩
+      match makeFT detectFix i o cheaper with
+      | .ok c =>
+        let g := ctorGrid i o c
+        (st, s!"ok {showMethod c.method} {showVia c.via} {showKind g.kind} {showBool g.cartesian} {g.ndim}")
+      | .error e => (st, "err " ++ e)
+    | _, _, _, _, _, _, _, _ => (st, "bad-op")
   | ["plan", ns, ds, zs, qs, fs, ss] =>
     match parseNatList? ns, parseRatList? ds, parseRatList? zs, parseRatList? qs,
       parseRatList? fs, parseRatList? ss with
@@ -128,10 +461,22 @@ def step (st : St) : List String → St × String
       match parseOutReq? ndim out with
       | none => (st, "bad-op")
       | some o =>
-        match makeFT detectLit ⟨kind, cart, ndim⟩ o cheaper with
+        match makeFT detectFix ⟨kind, cart, ndim⟩ o cheaper with
         | .ok c => (st, "ok " ++ showMethod c.method)
         | .error e => (st, "err " ++ e)
     | _, _, _, _ => (st, "bad-op")
+  | ["reproduce", N, d, Mo, dT, zT, s, z] =>
+    match parseNat? N, parseRat? d, parseNat? Mo, parseRat? dT, parseRat? zT, parseRat? s, parseRat? z with
+    | some N, some d, some Mo, some dT, some zT, some s, some z =>
+      let a : InAxis := ⟨N, d⟩
+      let o : OutAxis := ⟨Mo, dT, zT, s⟩
+      match getFftParameters a o with
+      | none => (st, "err value")
+      | some p =>
+        let pl := plan (p.toAxisIn a z)
+        let good := decide (AxisReproduced a z o p ∧ FftValuePre (p.toAxisIn a z))
+        (st, s!"ok {showBool good} {pl.Mo} {showRat pl.dT} {showRat (pl.zeroT + p.shiftT)} {showRat pl.shift}")
+    | _, _, _, _, _, _, _ => (st, "bad-op")
   | ["fftparams", N, d, Mo, dT, zT, s] =>
     match parseNat? N, parseRat? d, parseNat? Mo, parseRat? dT, parseRat? zT, parseRat? s with
     | some N, some d, some Mo, some dT, some zT, some s =>
